@@ -1062,6 +1062,51 @@ func rangeChecksAt(fn *ssa.Function, at ssa.Instruction, used, sz ssa.Value) (up
 	})
 	upperOK = len(upper) > 0 && core.OnlyViaEdges(fn, at, upper)
 	lowerOK = len(lower) > 0 && core.OnlyViaEdges(fn, at, lower)
+	if upperOK && lowerOK {
+		return
+	}
+	// a range predicate of the package applied to the size with a constant limit (withinLimit(size, max)):
+	// the predicate is folded at the boundaries -1, 0, K, K+1 and must hold exactly for 0 and K
+	within := core.CondEdges(fn, true, func(cond ssa.Value) (bool, bool) {
+		v, pol := core.StripNot(cond)
+		cl, ok := v.(*ssa.Call)
+		if !ok {
+			return false, false
+		}
+		g := core.StaticFn(cl)
+		if g == nil || g.Blocks == nil || g.Pkg != fn.Pkg || len(cl.Call.Args) != 2 {
+			return false, false
+		}
+		si, ki := -1, -1
+		var k int64
+		for i, a := range cl.Call.Args {
+			if kv, okc := core.ConstInt(a); okc {
+				ki, k = i, kv
+			} else if derived(a) && noDecrease(used, a, 0) {
+				si = i
+			}
+		}
+		if si < 0 || ki < 0 || k <= 0 {
+			return false, false
+		}
+		val := func(x int64) int64 {
+			r, okf := core.FoldFunc(g, nil, map[int]int64{si: x, ki: k})
+			if !okf {
+				return -1
+			}
+			return r
+		}
+		if val(-1) != 0 || val(0) != 1 || val(k) != 1 || val(k+1) != 0 {
+			return false, false
+		}
+		if k > limit {
+			limit = k
+		}
+		return pol, true
+	})
+	if len(within) > 0 && core.OnlyViaEdges(fn, at, within) {
+		upperOK, lowerOK = true, true
+	}
 	return
 }
 
@@ -1156,8 +1201,16 @@ func ruleFrameBounds(c *Ctx, p *core.Program, rule string) {
 					key := sprintf("%s/alloc#%d/size#%d", core.FuncName(rb), nSink, si+1)
 					var upperOK, lowerOK bool
 					var limit int64
+					helperTests := false
+					if fs.helper != nil {
+						// a helper that only decodes the sizes (no error result) leaves the tests to readBlock
+						res := fs.helper.Signature.Results()
+						helperTests = res.Len() > 0 && types.Identical(res.At(res.Len()-1).Type(), types.Universe.Lookup("error").Type())
+					}
 					if fs.helper == nil {
 						upperOK, lowerOK, limit = rangeChecksAt(rb, ms, ms.Len, fs.src)
+					} else if !helperTests {
+						upperOK, lowerOK, limit = rangeChecksAt(rb, ms, ms.Len, fs.val)
 					} else {
 						upperOK, lowerOK = true, true
 						nret := 0
